@@ -162,6 +162,8 @@ class Loader:
             return self.modules[name]
         if '.' in name:
             self.load(name.rpartition('.')[0])
+            if name in self.modules:          # loaded meanwhile by the parent package's __init__
+                return self.modules[name]
         path, is_pkg = self._path(name)
         if not os.path.exists(path):
             raise FileNotFoundError(path)
